@@ -122,3 +122,12 @@ CASES += [
     {"name": "monomer transitions counted by another loop variable", "kind": "twin", "edits": [
         (_AC11, "        for kk in range(1, self.system.nel):\n            # transition frequency\n", "        for kk in range(1, self.system.nel, 1):\n            # transition frequency\n", 1)]},
 ]
+
+CASES += [
+    {"name": "function stored as an owning copy", "kind": "twin", "edits": [
+        (_CFM11, "            self.data[iof,:] = fce.data\n", "            self.data[iof,:] = fce.data.copy()\n", 1)]},
+    {"name": "function stored through numpy.array", "kind": "twin", "edits": [
+        (_CFM11, "            self.data[iof,:] = fce.data\n", "            self.data[iof,:] = numpy.array(fce.data)\n", 1)]},
+    {"name": "owning copy of a leading part only", "kind": "mutant", "rule": "C11-M", "edits": [
+        (_CFM11, "            self.data[iof,:] = fce.data\n", "            self.data[iof,:ic+1] = fce.data[:ic+1].copy()\n", 1)]},
+]
